@@ -257,6 +257,7 @@ pub fn run(ctx: &Ctx) {
         span_space(ctx, "framenum-ctor-all", "framenum-ctor", 0, (1u64 << 31) - 1, 1 << 16);
         ctx.exhaustive.store(true, std::sync::atomic::Ordering::Relaxed);
         ctx.set_extra("exhaustive_spaces", serde_json::json!(["block length 1..=32767", "sample rate 1..=96000", "frame number 0..2^31-1 (encoder entry point and FrameHeader::new)"]));
+        crate::fuzzrun::campaign(ctx, "fz_encode", 8, crate::fuzzrun::runs(30_000), 24_000);
     } else {
         // stratified sample: 2^20 strata of 2^11 values, one value per stratum chosen from the seed
         let seed = ctx.seed;
